@@ -3,6 +3,8 @@
 (*   fill     import_candles_mode._fill_absent_candles(given, start, end)       *)
 (*   add      CandlesState.add_candle on a stored series (any timeframe)        *)
 (*   multi    CandlesState.add_multiple_1m_candles                              *)
+(*   batch    CandlesState.batch_add_candle (also: warm-up injection of a real  *)
+(*            research.backtest, hdr.init = <<>>, post = what the strategy reads)*)
 (*   spacing  research.backtest on input whose leading candles are d ms apart   *)
 (* against the property only (list semantics: strictly increasing timestamps,   *)
 (* append on newer, replace on equal-to-stored, otherwise unchanged - an        *)
@@ -64,6 +66,24 @@ MultiJudge(e) ==
            ELSE IF allnew \/ tail THEN "add_multiple_1m_candles:raises(" \o e.exc \o "):" \o where ELSE "ok")
      ELSE IF e.post = exp THEN "ok"
      ELSE "add_multiple_1m_candles:series-differs:" \o where
+\* batch_add_candle(rows): the list-level upsert of every row in order; an exception is tolerated only at an
+\* unknown older row and must leave the rows before it stored
+RECURSIVE FirstUnknown(_, _, _)
+FirstUnknown(s, ch, j) == IF j > Len(ch) THEN 0 ELSE IF ~Known(s, ch[j]) THEN j ELSE FirstUnknown(Upsert(s, ch[j]), ch, j + 1)
+BatchJudge(e) ==
+  LET ch == e.chunk
+      exp == UpsertAll(list, ch, 1)
+      u == FirstUnknown(list, ch, 1)
+      site == "batch_add_candle(" \o Traces[tid].hdr.tf \o ")"
+      where == IF \E i, j \in 1..Len(ch) : i < j /\ ch[i][1] = ch[j][1] THEN "repeated-row-inside-the-batch"
+               ELSE IF \E j \in 2..Len(ch) : ch[j][1] < ch[j - 1][1] THEN "older-row-inside-the-batch"
+               ELSE IF list # <<>> /\ ch[1][1] <= Last(list)[1] THEN "batch-overlaps-the-stored-tail" ELSE "all-new"
+  IN IF ~Incr(e.post) THEN site \o ":timestamps-not-strictly-increasing:" \o where
+     ELSE IF e.exc # "none" THEN
+          (IF u = 0 THEN site \o ":raises(" \o e.exc \o "):" \o where
+           ELSE IF e.post # UpsertAll(list, SubSeq(ch, 1, u - 1), 1) THEN site \o ":raises-and-changes-the-series:" \o where ELSE "ok")
+     ELSE IF e.post = exp THEN "ok"
+     ELSE site \o ":series-differs:" \o where
 SpacingJudge(e) ==
   IF e.d # 60000 /\ ~e.raised THEN "research.backtest:accepts-leading-candles-not-one-minute-apart"
   ELSE "ok"
@@ -71,6 +91,7 @@ SpacingJudge(e) ==
 Judge(e) == CASE e.k = "fill" -> FillJudge(e)
               [] e.k = "add" -> AddJudge(e)
               [] e.k = "multi" -> MultiJudge(e)
+              [] e.k = "batch" -> BatchJudge(e)
               [] e.k = "spacing" -> SpacingJudge(e)
               [] OTHER -> "machinery:unknown-event"
 Step ==
@@ -78,7 +99,7 @@ Step ==
   /\ LET e == Ev(tid)[l]  v == Judge(e) IN
      /\ IF v = "ok" \/ v \in seen THEN UNCHANGED seen
         ELSE seen' = seen \cup {v} /\ PrintT(<<"BAD", Traces[tid].id, l, v>>)
-     /\ list' = IF e.k \in {"add", "multi"} THEN e.post ELSE list
+     /\ list' = IF e.k \in {"add", "multi", "batch"} THEN e.post ELSE list
   /\ l' = l + 1 /\ UNCHANGED tid
 Spec == Init /\ [][Step]_vars
 Finished == l > Len(Ev(tid))
